@@ -84,6 +84,7 @@ extern char *compiler_type_names[];
 #define SWITCH_RANGES           0x20
 #define LOOP_FOREACH            0x40
 #define SPECIAL_CONTEXT         0x80
+#define INSIDE_SPECIAL_BLOCK    0x100  /* somewhere inside catch { } or time_expression { }: kept across loops and switches */
 
 typedef struct function_context_s {
     parse_node_t *values_list;
